@@ -131,3 +131,82 @@ package parser
 
 //@ func RenderToString
 //@   requires validtemplate(tmpl)
+
+// ---------------------------------------------------------------- generators (phase B)
+// Uniform contract of every generator function (built into the checker): pointer parameters to
+// repository structs are non-nil and satisfy the model invariants of internal/model; nothing that
+// existed before the call is written (FRAME, property C14).
+
+//@ func sortedPacketNames
+//@   ensures forall(i, 0, len(result), haskey(m, result[i]))
+//@   loop 0 invariant forall(i, 0, len(names), haskey(m, names[i]))
+//@ func sortedMatchFieldKeys
+//@   ensures forall(i, 0, len(result), haskey(m, result[i]))
+//@   loop 0 invariant forall(i, 0, len(keys), haskey(m, keys[i]))
+
+//@ methods (CppGenerator)
+//@   requires self.hasGen != nil && self.hasGen != self.binModel.PacketsMap
+//@   modifies-fresh self.hasGen
+//@ methods (PythonGenerator)
+//@   requires self.hasGen != nil && self.hasGen != self.binModel.PacketsMap
+//@   modifies-fresh self.hasGen
+
+//@ func (GoGenerator).GetPadding
+//@   ensures result != nil
+//@ func (RustGenerator).GetPadding
+//@   ensures result != nil
+//@ func (JavaGenerator).GetPadding
+//@   ensures result != nil
+//@ func (PythonGenerator).GetPadding
+//@   ensures result != nil
+//@ func (CppGenerator).GetPadding
+//@   ensures result != nil
+
+//@ pred lenLinked(p *model.Packet, f *model.Field) := typeis(f.LenAttr, *model.LengthFieldAttribute) ==> p.LengthField != nil
+//@ func (GoGenerator).generateEncodingField
+//@   requires lenLinked(p, field)
+//@ func (JavaGenerator).GenerateEncodeField
+//@   requires lenLinked(p, f)
+//@ func (RustGenerator).EncodeField
+//@   requires lenLinked(p, f)
+
+//@ func (CppGenerator).generateHppFile
+//@   requires binModel.RootPacket != nil
+//@ func (CppGenerator).generateTestFile
+//@   requires binModel.RootPacket != nil
+//@ func (PythonGenerator).generateCode
+//@   requires binModel.RootPacket != nil
+//@ func (PythonGenerator).generateTestCode
+//@   requires binModel.RootPacket != nil
+
+//@ func (GoGenerator).generateGoFileForPacket
+//@   decreases rank(p)
+//@ func (GoGenerator).generateNewInstance
+//@   decreases rank(p)
+//@ func (JavaGenerator).GenerateJavaClassFileForPacket
+//@   decreases rank(packet)
+//@ func (JavaGenerator).GenerateNewInstance
+//@   decreases rank(packet)
+//@ func (LuaWspGenerator).generateSubDissector
+//@   decreases rank(pkt)
+//@ func (LuaWspGenerator).generateFieldDefinitionFromPacket
+//@   decreases rank(pkt)
+//@ func (PythonGenerator).generateCodeForPacket
+//@   decreases rank(p)
+//@ func (PythonGenerator).generateNewInstance
+//@   decreases rank(packet)
+//@ func (CppGenerator).generateCodeForPacket
+//@   decreases rank(p)
+//@ func (CppGenerator).generateNewInstance
+//@   decreases 2*rank(p) + 1
+//@ func (CppGenerator).generateMakeUniqueInstance
+//@   decreases 2*rank(p)
+//@ func (RustGenerator).generateStructCode
+//@   decreases rank(pkt)
+//@ func (RustGenerator).testValue
+//@   decreases 3*rank(f) + 2
+//@ func (RustGenerator).testValueSingle
+//@   decreases 3*rank(f) + 1
+//@ func (RustGenerator).testMatchValue
+//@   requires typeis(f.Attr, *model.MatchFieldAttribute) && unbox(f.Attr, *model.MatchFieldAttribute) == mf
+//@   decreases 3*rank(f)
